@@ -175,6 +175,7 @@ struct PS {
     }
 };
 static int g_shift_total = 0; // total order of cancelled poles in the current expression
+static bool g_root_shift = false; // a root of x^v * unit was taken
 
 static PS ps_const(const Q &q)
 {
@@ -393,8 +394,25 @@ static PS evalB_pow(const RCP<const Basic> &base, const RCP<const Basic> &ex)
         long p = mp_get_si(get_num(r.as_rational_class()));
         unsigned long q = mp_get_ui(get_den(r.as_rational_class()));
         PS b = evalB(base);
-        if (b.c[0].is0())
-            throw NA{"branch point"};
+        if (b.c[0].is0()) {
+            // x^v * u with u(0) > 0: (x^v)^(p/q) = |x|^(v p/q) is real-analytic iff v is even and v*p/q is an
+            // even non-negative integer (then it equals x^(v p/q))
+            int v = b.val();
+            if (v >= std::min(b.acc, W) || v % 2 != 0 || (v * p) % (long)q != 0)
+                throw NA{"branch point"};
+            long k = v * p / (long)q;
+            if (k < 0 || k % 2 != 0)
+                throw NA{"branch point"};
+            PS u = ps_shift_down(b, v);
+            PS h = ps_powq(u, p, q);
+            PS r;
+            for (int i = 0; i + k < W; i++)
+                r.c[i + k] = h.c[i];
+            r.acc = std::min((long)W, h.acc + k);
+            g_root_shift = true;
+            g_shift_total += (int)(v - k); // the library knows base/x^v only to prec - v terms
+            return r;
+        }
         return ps_powq(b, p, q);
     }
     if (eq(*base, *E))
@@ -525,9 +543,68 @@ static std::string coef_str(const RCP<const Basic> &c)
     return vsexp::rat_str(down_cast<const Rational &>(*c).as_rational_class());
 }
 
+// the fragment of theorem SymVerif.C31.series_sound_partial (mirror of Series.covered in the Lean model)
+static bool cov(const Basic &b);
+static bool cov_pow(const Basic &base, const Basic &ex)
+{
+    if (is_a<Integer>(ex))
+        return !down_cast<const Integer &>(ex).is_zero() && cov(base);
+    if (is_a<Rational>(ex))
+        return false;
+    return cov(ex) && (eq(base, *E) || cov(base));
+}
+static bool cov(const Basic &b)
+{
+    if (is_rat(b))
+        return true;
+    if (is_a<Symbol>(b))
+        return down_cast<const Symbol &>(b).get_name() == "x";
+    if (is_a<Add>(b)) {
+        const Add &a = down_cast<const Add &>(b);
+        if (!cov(*a.get_coef()))
+            return false;
+        for (auto &t : a.get_dict())
+            if (!cov(*t.first) || !cov(*t.second))
+                return false;
+        return true;
+    }
+    if (is_a<Mul>(b)) {
+        const Mul &m = down_cast<const Mul &>(b);
+        if (!cov(*m.get_coef()))
+            return false;
+        for (auto &t : m.get_dict())
+            if (!cov_pow(*t.first, *t.second))
+                return false;
+        return true;
+    }
+    if (is_a<Pow>(b)) {
+        const Pow &p = down_cast<const Pow &>(b);
+        return cov_pow(*p.get_base(), *p.get_exp());
+    }
+    switch (b.get_type_code()) {
+        case SYMENGINE_SIN:
+        case SYMENGINE_COS:
+        case SYMENGINE_SEC:
+        case SYMENGINE_LOG:
+        case SYMENGINE_ATAN:
+        case SYMENGINE_SINH:
+        case SYMENGINE_COSH:
+        case SYMENGINE_ATANH:
+            return b.get_args().size() == 1 && cov(*b.get_args()[0]);
+        default:
+            return false;
+    }
+}
+
 std::string hx_run(const std::string &line, std::string &oracle)
 {
     auto nodes = vsexp::parse_all(line);
+    if (nodes.size() == 2 && nodes[0].atom == "cov") {
+        RCP<const Basic> e0 = vsexp::build(nodes[1]);
+        bool c = cov(*e0);
+        stat(c ? "cov_in_proved_fragment" : "cov_outside_proved_fragment");
+        return c ? "1" : "0";
+    }
     if (nodes.size() != 3 || nodes[0].atom != "series")
         return "bad-op";
     RCP<const Basic> e = vsexp::build(nodes[1]);
@@ -558,6 +635,8 @@ std::string hx_run(const std::string &line, std::string &oracle)
         out = items.empty() ? "0" : join(items, ",");
     }
     stat(rational ? "impl_rational" : "impl_symbolic");
+    if (cov(*e))
+        stat("series_in_proved_fragment");
     if (excess)
         stat("impl_terms_beyond_prec");
     auto coeff = [&](int k) -> RCP<const Basic> {
@@ -571,6 +650,7 @@ std::string hx_run(const std::string &line, std::string &oracle)
         const int SLACK = 10;
         W = prec + SLACK;
         g_shift_total = 0;
+        g_root_shift = false;
         try {
             PS t = evalB(e);
             if (t.acc >= prec) {
@@ -620,7 +700,14 @@ std::string hx_run(const std::string &line, std::string &oracle)
                     stat("oracleA_stopped_growth");
                     break;
                 }
-                dk = dk->diff(x);
+                try {
+                    dk = dk->diff(x);
+                } catch (const std::exception &) {
+                    // diff itself failed (e.g. a canonical-form assertion inside the derivative code:
+                    // that is a defect of another property, not of the series module)
+                    stat("oracleA_diff_exception");
+                    break;
+                }
                 fact = rcp_static_cast<const Integer>(fact->mulint(*integer(k)));
             }
             RCP<const Basic> v;
@@ -634,9 +721,14 @@ std::string hx_run(const std::string &line, std::string &oracle)
                 stat("oracleA_inconclusive");
                 break;
             }
-            RCP<const Basic> tk = div(v, fact);
-            RCP<const Basic> ck = coeff(k);
-            RCP<const Basic> df = expand(sub(tk, ck));
+            RCP<const Basic> tk, ck = coeff(k), df;
+            try {
+                tk = div(v, fact);
+                df = expand(sub(tk, ck));
+            } catch (const std::exception &) {
+                stat("oracleA_inconclusive");
+                break;
+            }
             if (eq(*df, *zero)) {
                 checked++;
                 continue;
@@ -813,9 +905,12 @@ struct Gen {
                 int i = (int)r.below(6);
                 int p = r.coin(1, 3) ? -1 : 1;
                 RCP<const Basic> b = add(integer(base[i]), zero_(d > 0 ? d - 1 : 0));
-                if (r.coin(1, 4))
-                    b = add(Rational::from_two_ints(*integer(base[i]), *integer(base[(i + 1) % 5])),
-                            zero_(d > 0 ? d - 1 : 0));
+                if (r.coin(1, 4)) { // rational perfect power: base / k^root
+                    long k = 2 + (long)r.below(2), den = 1;
+                    for (int j = 0; j < rt[i]; j++)
+                        den *= k;
+                    b = add(Rational::from_two_ints(*integer(base[i]), *integer(den)), zero_(d > 0 ? d - 1 : 0));
+                }
                 return pow(b, Rational::from_two_ints(*integer(p), *integer(rt[i])));
             }
             default:
@@ -912,7 +1007,9 @@ struct Gen {
 
 static void emit_case(const RCP<const Basic> &e, int prec, const std::string &tag)
 {
-    emit("series " + vsexp::dump(*e) + " " + std::to_string(prec), tag);
+    std::string d = vsexp::dump(*e);
+    emit("series " + d + " " + std::to_string(prec), tag);
+    emit("cov " + d, "trivial-cov");
 }
 
 void hx_gen(Rng &r, const std::string &tier)
@@ -935,7 +1032,7 @@ void hx_gen(Rng &r, const std::string &tier)
                     emit_case(f, p, "fixed");
         }
     }
-    int n = th ? 2600 : 420;
+    int n = th ? 24000 : 3000;
     for (int i = 0; i < n; i++) {
         int d = (int)r.below(4);
         int prec = 1 + (int)r.below(maxprec);
@@ -943,8 +1040,17 @@ void hx_gen(Rng &r, const std::string &tier)
             prec = 14; // depth-3 compositions of Newton iterations get expensive above this
         emit_case(g.any(d), prec, "depth" + std::to_string(d));
     }
-    for (int i = 0; i < (th ? 300 : 60); i++)
+    for (int i = 0; i < (th ? 1500 : 200); i++)
         emit_case(g.nonrat((int)r.below(2)), 1 + (int)r.below(7), "nonrat");
-    for (int i = 0; i < (th ? 200 : 40); i++)
+    for (int i = 0; i < (th ? 800 : 100); i++)
         emit_case(g.removable(), 2 + (int)r.below(maxprec - 1), "removable");
+    // even roots of x^(2m) * (1 + ...): real-analytic, series_nthroot takes its ldeg != 0 branch
+    for (int i = 0; i < (th ? 200 : 30); i++) {
+        int m = 1 + (int)r.below(2);
+        RCP<const Basic> u = g.one((int)r.below(2));
+        RCP<const Basic> b = expand(mul(pow(x, integer(4 * m)), add(integer(1), g.zeroP())));
+        if (r.coin(1, 3))
+            b = mul(pow(x, integer(4 * m)), u);
+        emit_case(pow(b, Rational::from_two_ints(*integer(1), *integer(2))), 4 * m + 1 + (int)r.below(6), "rootval");
+    }
 }
